@@ -80,6 +80,12 @@ def make_app():
     routes.append(('/w/sub', inner))
     table.append(('/w/sub/x', None, 'created'))
     table.append(('/w/sub/y', None, 'raise403'))
+    # an embedded application that brings a StatsMiddleware *of its own* and its own stats mount: the embedding application's
+    # instance is the one kept in every stack (unique type, outermost instance), so it counts - and the inner mount, served
+    # through this application, reports and resets those same counts
+    inner2 = Application([Route('/x', mk('answer')), ('/_stats', create_stats_app())], middlewares=[StatsMiddleware()])
+    routes.append(('/v/sub', inner2))
+    table.append(('/v/sub/x', None, 'answer'))
     app = Application(routes + [('/_stats', create_stats_app())], middlewares=[mw])
     return app, table
 
@@ -155,20 +161,24 @@ class StatsSim(object):
             if r.status != want:
                 ctx.mismatch('status-with-stats', '%s %s -> %s, expected %s' % (method, path, r.status, want))
         elif kind == 'read':
-            r = call(self.app, '/_stats/', 'GET', query='format=json')
+            mount = '/v/sub/_stats' if len(op) > 1 and op[1] == 'inner' else '/_stats'
+            r = call(self.app, mount + '/', 'GET', query='format=json')
             ctx.requests += 1
             self.compare(r, 'read')
-            self.model[('/_stats/', '200')] += 1
+            self.model[(mount + '/', '200')] += 1
+            if mount != '/_stats':
+                ctx.event('A-read-through-inner-mount')
         elif kind == 'reset':
-            r = call(self.app, '/_stats/reset', 'POST', query='format=json')
+            mount = '/v/sub/_stats' if len(op) > 1 and op[1] == 'inner' else '/_stats'
+            r = call(self.app, mount + '/reset', 'POST', query='format=json')
             ctx.requests += 1
-            in_old = self.compare(r, 'reset')
+            in_old = self.compare(r, 'reset', mount + '/reset')
             self.model = Counter()
             if not in_old:
-                self.model[('/_stats/reset', '200')] += 1      # then it must show up in the next report
+                self.model[(mount + '/reset', '200')] += 1      # then it must show up in the next report
             self.after_reset = True
 
-    def compare(self, r, what):
+    def compare(self, r, what, reset_pattern='/_stats/reset'):
         ctx = self.ctx
         if r.exc is not None or r.status != 200:
             ctx.mismatch('stats-report-unavailable', '%s: stats report gave %s %r %r' % (what, r.status, r.exc, r.body[:200]))
@@ -189,7 +199,7 @@ class StatsSim(object):
         in_old = False
         if got != want:
             # a reset request's own hit may already be part of the totals it returns (then it is not owed to the next epoch)
-            key = ('/_stats/reset', '200')
+            key = (reset_pattern, '200')
             g2, w2 = Counter(got), Counter(want)
             if what == 'reset' and g2.get(key, 0) == w2.get(key, 0) + 1:
                 in_old = True
@@ -205,7 +215,7 @@ def stats_machine():
     from hypothesis.stateful import RuleBasedStateMachine, rule
 
     paths = ['/r/' + k for k in ROUTE_KINDS] + ['/q/nb403', '/q/nbret404', '/nowhere', '/r/answer/x', '/', '/r/other',
-                                                '/w/route', '/w/sub/x', '/w/sub/y']
+                                                '/w/route', '/w/sub/x', '/w/sub/y', '/v/sub/x']
 
     class StatsMachine(RuleBasedStateMachine):
         ctx = None
@@ -238,13 +248,13 @@ def stats_machine():
         def construct_another(self):
             self.do(['construct'])
 
-        @rule()
-        def read(self):
-            self.do(['read'])
+        @rule(mount=st.sampled_from(['outer', 'outer', 'inner']))
+        def read(self, mount):
+            self.do(['read', mount])
 
-        @rule()
-        def reset(self):
-            self.do(['reset'])
+        @rule(mount=st.sampled_from(['outer', 'outer', 'inner']))
+        def reset(self, mount):
+            self.do(['reset', mount])
 
         def teardown(self):
             self.sim.step(['read'])
